@@ -72,6 +72,9 @@ fn base_plans(tier: Tier) -> Vec<Plan> {
     v.push(plain(Cfg::Phys, Order::Asc, alphabet(chain.clone(), &W1, 1, true)));
     v.push(plain(Cfg::alt(Cfg::Phys, "/Z"), Order::Asc, alphabet(chain.clone(), &W1, 1, true)));
     v.push(plain(Cfg::Mem, Order::Asc, alphabet(chain.clone(), &W1, 1, true)));
+    // adapters stacked on adapters (the larger stackings are in the thorough tier)
+    v.push(plain(Cfg::alt(mem2(), "/Z"), Order::Asc, alphabet(u3(), &W1, 1, true)));
+    v.push(plain(Cfg::Ov(vec![Cfg::alt(Cfg::Mem, "/Z"), Cfg::Mem]), Order::Desc, alphabet(u3(), &W1, 1, true)));
     v.push(plain(Cfg::Mem, Order::Asc, names_prim.clone()));
     v.push(plain(Cfg::Phys, Order::Asc, names_prim.clone()));
     v.push(plain(mem2(), Order::Desc, alphabet(u_names_small(), &W1, 1, false)));
